@@ -24,11 +24,11 @@ def ref(n):
     return {"$ref": f"#/components/schemas/{n}"}
 
 
-VALID_LEAF = {"any": None, "bool": {"t", "f"}, "int": {"i1", "i2", "i7"}, "float": {"i1", "i2", "i7", "f15", "f10"},
-              "str": {"s", "ds", "dts", "dt0", "us", "m1", "m2"}, "date": {"ds"}, "datetime": {"dts", "dt0"}, "uuid": {"us"}, "enums": {"m1", "m2"},
-              "enumi": {"i1", "i2"}, "none": {"null"}, "modelM": {"objv", "objvw"}, "modelN": {"objw", "objvw"}, "modelS": {"objv"},
+VALID_LEAF = {"any": None, "bool": {"t", "f"}, "int": {"i0", "i1", "i2", "i7"}, "float": {"i0", "i1", "i2", "i7", "f15", "f10"},
+              "str": {"se", "s", "ds", "dts", "dt0", "us", "m1", "m2"}, "date": {"ds"}, "datetime": {"dts", "dt0"}, "uuid": {"us"}, "enums": {"se", "m1", "m2"},
+              "enumi": {"i0", "i1", "i2"}, "modelO": {"objv", "objw", "objvw", "obj0"}, "none": {"null"}, "modelM": {"objv", "objvw"}, "modelN": {"objw", "objvw"}, "modelS": {"objv"},
               "listint": {"arr0", "arri"}, "listdate": {"arr0", "arrd"}, "listM": {"arr0", "arro"}}
-HAS_CONSTRUCT = {"date", "datetime", "uuid", "enums", "enumi", "modelM", "modelN", "modelS", "listint", "listdate", "listM"}
+HAS_CONSTRUCT = {"date", "datetime", "uuid", "enums", "enumi", "modelM", "modelN", "modelS", "modelO", "listint", "listdate", "listM"}
 PY_KIND = {"date": "date", "datetime": "datetime", "UUID": "uuid", "Enum:ES": "enums", "Enum:EI": "enumi", "Model:M": "modelM", "Model:N": "modelN",
            "Model:S": "modelS"}
 
